@@ -523,12 +523,82 @@ def _count_chain(ctx, R, fi, inc_node):
     ctx.ob(R, fa, fa.node, ok, f"BatchBuilder.{cnt} does not move by exactly one for every record the record builder accepted (and only then)", text="builder-count-tracks-appends")
 
 
+def _produce_effects(ctx, R):
+    """Which reply code leads to which resolution in SendProduceReqHandler.handle_response, decided on the facts that hold at each
+    resolution call: acknowledged only for NoError / DuplicateSequenceNumber, failed or re-enqueued only for another code, and the
+    choice between the two is _can_retry."""
+    from ..rulekit import must_facts
+    fi = ctx.fn(f"{HANDLER}.handle_response")
+    c = ctx.cfg(fi)
+    ev = _resolution_events(c)
+    er = None
+    for n in c.calls(attr="for_code"):
+        if isinstance(n.stmt, ast.Assign) and isinstance(n.stmt.targets[0], ast.Name):
+            er = n.stmt.targets[0].id
+    ctx.anchor(er is not None, "error = Errors.for_code(error_code) in handle_response")
+    ok_codes = {(er, "is", "Errors.NoError"), (er, "is", "DuplicateSequenceNumber"), (er, "==", "Errors.NoError"), (er, "==", "DuplicateSequenceNumber")}
+    from ..rulekit import atoms_of_test
+    heads = [h for h in c.nodes if h.kind == "loop"]
+
+    def edges(pred):
+        """(test, successor) edges whose added facts satisfy pred."""
+        out = []
+        for t in c.nodes:
+            if t.kind == "test":
+                for m, l in t.succ:
+                    lab = l
+                    if l == "back":
+                        others = {x for _m, x in t.succ if x in ("T", "F")}
+                        lab = "F" if others == {"T"} else "T" if others == {"F"} else None
+                    if lab in ("T", "F") and pred(atoms_of_test(t.ast, lab == "T")):
+                        out.append((t, m))
+        return out
+    lic = edges(lambda at: bool(at & ok_codes))
+    retry_t = edges(lambda at: any("_can_retry(" in a_[0] and a_[1] == "truthy" for a_ in at))
+    retry_f = edges(lambda at: any("_can_retry(" in a_[0] and a_[1] == "falsy" for a_ in at))
+    ctx.anchor(bool(lic) and bool(retry_t) and bool(retry_f), "tests on the reply code and on _can_retry in handle_response")
+
+    def region(starts, cut_edges, avoid=()):
+        seen, work = set(), list(starts)
+        ce = {(id(t_), id(m_)) for t_, m_ in cut_edges}
+        while work:
+            n_ = work.pop()
+            if n_ in seen or n_ in avoid:
+                continue
+            seen.add(n_)
+            for m_, l_ in n_.succ:
+                if l_ == "exc" or (id(n_), id(m_)) in ce:
+                    continue
+                work.append(m_)
+        return seen
+    unlicensed = region([c.entry], lic)
+    n_done = n_other = 0
+    for e in ev:
+        kind = call_attr(e.ast)
+        if kind in ("done",):
+            n_done += 1
+            ctx.ob(R, fi, e, e not in unlicensed, f"`{unparse(e.ast)[:50]}` can acknowledge the batch without the reply code having been found to be NoError / "
+                                                  "DuplicateSequenceNumber", text="ack-only-on-success:" + kind)
+        elif kind in ("failure", "append"):
+            n_other += 1
+            via_ok = any(e in region([m_], [], avoid=heads) for _t, m_ in lic)
+            wrong = retry_t if kind == "failure" else retry_f
+            via_wrong = any(e in region([m_], [], avoid=heads) for _t, m_ in wrong)
+            right = retry_f if kind == "failure" else retry_t
+            needs = e not in region([c.entry], right)
+            ctx.ob(R, fi, e, not via_ok and not via_wrong and needs,
+                   f"`{unparse(e.ast)[:50]}`: {'reachable for a successful reply code; ' if via_ok else ''}{'reachable on the wrong side of _can_retry; ' if via_wrong else ''}"
+                   f"{'' if needs else 'reachable without _can_retry having decided'}", text="error-arm:" + kind)
+    ctx.anchor(n_done >= 1 and n_other >= 2, "done / failure / re-enqueue arms of handle_response")
+
+
 def rule_classify(ctx):
     R = "classify"
     ctx.rep.rule(R, "SendProduceReqHandler: on every path through the per-batch loops of do() and handle_response() a batch "
                     "gets exactly one of done / done_noack / failure / queued-for-reenqueue (or is skipped because the "
                     "response names a partition that was not sent); requeued batches are re-enqueued before do() returns; "
                     "reenqueue is called from nowhere else")
+    _produce_effects(ctx, R)
     total = 0
     for q in (f"{HANDLER}.do", f"{HANDLER}.handle_response"):
         fi = ctx.fn(q)
